@@ -15,7 +15,7 @@ pub fn check_record(r: &Value) -> Verdict {
 
 pub fn run(ctx: &mut Ctx) {
     ctx.level = "translation_validation".into();
-    ctx.rule = "Programs: (a) every expression tree with 1-2 (quick) or 1-3 (thorough) operator nodes over the full operator table (4 unary, pre/post increment and decrement, 18 binary, 11 assignments, comma, ternary) on int and on float operands, plus every 2-operator tree over mixed int/float/uint/bool operands in 4 rotations, each as a one-function program with inout parameters; (b) generated programs of the executable resource-free subset (scalars, vectors, structs, arrays, enums, static and static const globals, all statement forms, functions with in/out/inout/default parameters, overloads, function templates, casts, swizzles, intrinsics), for DirectX and Vulkan HLSL. Each function is run on 3 argument vectors (one tame, two from boundary pools incl. INT_MIN, 2^31, NaN, infinities, -0.0) by both evaluators; return value, out/inout parameters and all static globals must be bit-identical. Non-trivial = at least one function was executed to completion by both evaluators and compared; distinct = hash of (source, argument seed); exhaustive shape parts are distinct by construction. Front-end rejections of enumerated shapes (e.g. assignment to an rvalue) are skipped and counted.".into();
+    ctx.rule = "Programs: (a) every expression tree with 1-2 (quick) or 1-3 (thorough) operator nodes over the full operator table (4 unary, pre/post increment and decrement, 18 binary, 11 assignments, comma, ternary) on int and on float operands, plus every 2-operator tree over mixed int/float/uint/bool operands in 4 rotations, each as a one-function program with inout parameters and run on 11 argument vectors (3 sampled + 8 crafted operand rows: cancellation, absorption, overflow to infinity, INT_MIN / -1, shift counts of 32); (a2) the exhaustive aliasing table: callee(mode1 int a, mode2 int b) with modes from {in, out, inout}, every two-statement body over 10 statements that read and write a, b and a static g, called with every pair of arguments from {x, y, g} (8 100 programs); (b) generated programs of the executable resource-free subset (scalars, vectors, structs, arrays, enums, static and static const globals, all statement forms, functions with in/out/inout/default parameters incl. aliased out arguments, overloads, function templates, struct methods, nested and reopened namespaces with shared function names, implicit conversions at initialisers / assignments / arguments / returns, casts, swizzles, intrinsics), for DirectX and Vulkan HLSL. Each function is run on 3 argument vectors (one tame, two from boundary pools incl. INT_MIN, 2^31, NaN, infinities, -0.0) by both evaluators; return value, out/inout parameters and all static globals must be bit-identical. Non-trivial = at least one function was executed to completion by both evaluators and compared; distinct = hash of (source, argument seed); exhaustive shape parts are distinct by construction. Front-end rejections of enumerated shapes (e.g. assignment to an rvalue) are skipped and counted.".into();
     ctx.assumptions.push("operations whose result HLSL leaves undefined (division by zero, out-of-range shifts, out-of-range float-to-int, reads of unwritten out parameters) are given one fixed meaning in the shared value library, identical on both sides".into());
     ctx.assumptions.push("unsuffixed literals are literal-typed on both sides (LitI/LitF) until a conversion pins them".into());
     ctx.assumptions.push("evaluation order is left to right in both evaluators (RSSL's IR order); HLSL leaves it unspecified".into());
